@@ -26,6 +26,7 @@ func init() {
 			{"C06.commands", "make/chop/cache/tar -i return every error of the bulk operations", 4, c06Commands},
 			{"C06.index-row", "ChunkStream records size and id of the same bytes it stores", 2, c06IndexRow},
 			{"C06.chunk-buffer-ownership", "the chunker never reuses a buffer whose sub-slices were handed out", 1, c06BufferOwnership},
+			{"C06.errors-not-dropped", "no error of the operations this property depends on is dropped", 1, func(c *Ctx) { c.errorsNotDropped("C06") }},
 		},
 	})
 }
